@@ -71,7 +71,8 @@ def _filter_shapes():
 SHAPES = _filter_shapes()
 RULE = (
     "W1 synthetic surveys over %d templates (categorical date on rows, columns, both or "
-    "neither; slices and strands; with subtotals and differences) x weighting x every one of "
+    "neither; slices and strands; with subtotals and differences) x weighting (a third of the "
+    "strands with weights that are all zero) x every one of "
     "%d shapes of the response's filter statistics (absent, old style, new style, "
     "is_cat_date, zero denominators as int and float, null values, null weighted block, empty "
     "dicts) x two populations (linearity). Non-trivial: N >= 5, finite positive fraction and "
